@@ -236,6 +236,7 @@ var (
 func TestVerifC20Sessions(t *testing.T) {
 	rec := kit.R("TestVerifC20Sessions")
 	t.Cleanup(kit.Flush)
+	t.Cleanup(func() { c20KillLeakedHooks() })
 	limit := kit.EnvInt("C20_SESSION_CASES", 8)
 
 	rapid.Check(t, func(t *rapid.T) {
